@@ -44,6 +44,17 @@ def step (s : St) (line : String) : St × String :=
     match k.toNat? with
     | some kk => if (s.sps.find? (·.1 = kk)).isSome then (s, s!"int {s.idx.get ⟨1000000 + kk, .ori⟩}") else (s, "bad-op")
     | none => (s, "bad-op")
+  | ["reset"] =>
+    -- project_equations prologue over the points of PD (ids 1000000+k are orientations)
+    let guard : Nat → Bool := fun i =>
+      match s.ids[i]? with
+      | some name =>
+        match s.pts.find? (·.1 = name) with
+        | some e => Gen.Lin.resetGuard e.2
+        | none => false
+      | none => false
+    ({ s with idx := s.idx.resetPass guard }, "ok")
+  | ["maxn"] => (s, s!"int {s.idx.maxn}")
   | ["pt", id, x, y, z, sxy, sz] =>
     match float? x, float? y, float? z, status? sxy, status? sz with
     | some x, some y, some z, some a, some b =>
